@@ -4,3 +4,19 @@ Each predicate takes the JSON form of a violating case and says whether the
 case is an instance of the listed finding.  A violation is attributed to an open
 finding only if property, call site, clause AND predicate all match.
 """
+
+
+def _has_duplicates(seq):
+    return len(set(seq)) < len(seq)
+
+
+def beat_infogain_duplicates(case, observed):
+    """information_gain is NaN when a sequence repeats a beat time (zero inter-beat interval)."""
+    if case.get("kind") == "single":
+        ref = est = case["x"]
+    else:
+        ref, est = case["ref"], case["est"]
+    if not (_has_duplicates(ref) or _has_duplicates(est)):
+        return False
+    v = observed.get("Information gain") if isinstance(observed, dict) else None
+    return isinstance(v, float) and v != v
